@@ -158,6 +158,9 @@ func genBucket(r *Rng, cfg GenCfg, protected bool, withAlg int64, haveAlg bool, 
 		addInt(1, wInt(withAlg, -1))
 	}
 	n := r.Intn(cfg.MaxEntries + 1)
+	if cfg.MaxEntries >= 6 && r.Chance(1, 25) {
+		n = 17 + r.Intn(24) // dozens of entries
+	}
 	for i := 0; i < n; i++ {
 		switch r.Intn(14) {
 		case 0:
@@ -465,7 +468,23 @@ func mutateTree(r *Rng, root **W) string {
 		}
 	}
 	n := *p
-	switch r.Intn(16) {
+	switch r.Intn(18) {
+	case 16:
+		if n.Maj == 5 {
+			n.Kids = append(n.Kids, wInt(pick(r, []int64{3, 16}), -1), wTstr(pick(r, []string{"", " a/b", "a/b ", "ab", "a/b/c", "/", " "}), -1))
+			n.Width = pickW(uint64(len(n.Kids)/2), n.Width)
+			return "media-type-fault"
+		}
+		set(wTstr("", -1))
+		return "to-empty-text"
+	case 17:
+		if n.Maj == 5 {
+			n.Kids = append(n.Kids, wInt(pick(r, []int64{5, 6}), -1), wBstr([]byte{1, 2}, -1))
+			n.Width = pickW(uint64(len(n.Kids)/2), n.Width)
+			return "add-iv-or-partial-iv"
+		}
+		set(wBstr([]byte{1}, -1))
+		return "to-bstr"
 	case 0:
 		set(randomNode(r, 1))
 		return "replace-node"
@@ -638,3 +657,35 @@ func mutateBytes(r *Rng, b []byte) ([]byte, string) {
 		return b, "byte-replace"
 	}
 }
+
+// padProtectedTo pads the protected map wrapped by p (a bstr) with a kid so that
+// the wrapped content has exactly target bytes; returns false when impossible.
+func padProtectedTo(p *W, target int) bool {
+	var kv []*W
+	if len(p.Str) > 0 {
+		m, err := refParseFull(p.Str)
+		if err != nil || m.Maj != 5 {
+			return false
+		}
+		for i := 0; i+1 < len(m.Kids); i += 2 {
+			if m.Kids[i].Maj == 0 && m.Kids[i].Val == 4 {
+				continue
+			}
+			kv = append(kv, m.Kids[i], m.Kids[i+1])
+		}
+	}
+	for l := 0; l <= target; l++ {
+		cand := wMap(-1, append(append([]*W{}, kv...), wInt(4, -1), wBstr(make([]byte, l), -1))...)
+		if len(cand.Ser()) == target {
+			p.Str = cand.Ser()
+			p.Width = pickW(uint64(len(p.Str)), -1)
+			return true
+		}
+		if len(cand.Ser()) > target {
+			return false
+		}
+	}
+	return false
+}
+
+var boundaryLens = []int{23, 24, 255, 256, 65535, 65536}
